@@ -245,8 +245,8 @@ def batch(pool, profile, seeds, tier, budget_s, on_result=None, stop_on_violatio
             results.append(msg)
             if on_result:
                 on_result(msg)
-            if msg.get("violations") and stop_on_violation:
-                stop = True
+            if msg.get("violations") and stop_on_violation and (bad is None or bad):
+                stop = True     # (with a `bad` list the caller decides what counts: runs ending at a listed finding do not)
             if msg.get("harness_error"):
                 stop = True
             if max_bad and bad is not None and len(bad) >= max_bad:
